@@ -129,7 +129,7 @@ func runConc(c ConcCase) *h.Outcome {
 	if reps < 1 {
 		reps = 1
 	}
-	for r := 0; r < reps && o.Fail == nil; r++ {
+	for r := 0; r < reps*concBoost && o.Fail == nil; r++ {
 		var obs *concObs
 		o.Fail = guarded("conc/hang", func() *h.Failure {
 			var f *h.Failure
@@ -140,7 +140,45 @@ func runConc(c ConcCase) *h.Outcome {
 			o.Fail = judgeConc(c, obs, o)
 		}
 	}
+	o.Classes = uniq(o.Classes) // one count per layout, not per repetition
+	if o.Fail != nil {
+		// rapid only shrinks failures whose message is identical from run to
+		// run; ids, stamps and counts differ with every schedule, so they go
+		// to the log and the message names the violated clause only
+		concDetail = o.Fail.Msg
+		if txt, ok := concClauses[o.Fail.Sig]; ok {
+			o.Fail.Msg = txt
+		} else if len(o.Fail.Sig) < 5 || o.Fail.Sig[:5] != "conc/" {
+			o.Fail.Msg = "see the log of the run"
+		}
+	}
 	return o
+}
+
+// concBoost multiplies the repetitions of a layout while rapid is shrinking, so
+// that a smaller layout that can fail does fail when it is tried.
+var concBoost = 1
+
+// concDetail holds the schedule-specific detail of the last failure.
+var concDetail string
+
+// concClauses: the violated clause per signature (stable text).
+var concClauses = map[string]string{
+	"conc/hang":                            "the run did not finish within the hang limit",
+	"conc/subscribe-error":                 "Subscribe of a fresh consumer on an open relay failed",
+	"conc/foreign-envelope":                "a sink holds an envelope that was never put",
+	"conc/duplicate-at-consumer":           "an envelope was handed to one consumer more than once",
+	"conc/duplicate-at-default":            "an envelope reached the default handler more than once",
+	"conc/duplicate-at-drain":              "an envelope was in the final cache content more than once",
+	"conc/rejected-delivered":              "an envelope reached a consumer whose predicate rejects it",
+	"conc/missed-stable-subscriber":        "an envelope did not reach a matching consumer whose subscription interval contains the put",
+	"conc/several-destination-kinds":       "an envelope reached more than one of: consumers / cache / default handler",
+	"conc/lost":                            "an envelope put into the open relay reached no consumer, is not in the cache at the end and did not reach the default handler",
+	"conc/cached-handed-twice":             "an envelope that came out of the cache (its consumer subscribed only after the put had returned) also reached another consumer",
+	"conc/cached-without-predicate":        "an envelope was kept in the cache although no matching cache predicate was enabled during the put",
+	"conc/cached-skipped-first-subscriber": "an envelope was kept in the cache and not handed to a matching, unclosed consumer that was subscribed at the moment of the put or subscribed after it and before the eventual taker",
+	"conc/default-despite-cache-predicate": "an envelope went to the default handler although a matching cache predicate was enabled throughout the put",
+	"conc/close-after-drain":               "Relay.Close reported a non-empty cache after a catch-all subscriber had taken the cache",
 }
 
 // execConc performs one run and returns what was observed.
@@ -421,16 +459,23 @@ func judgeConc(c ConcCase, obs *concObs, o *h.Outcome) *h.Failure {
 			if !possible {
 				return h.Failf("conc/cached-without-predicate", "envelope %d (tag %d, put [%d,%d]) was kept in the cache although no matching cache predicate was enabled during the put", id, tag, p.s, p.e)
 			}
-			// first later subscriber: nobody matching may have subscribed
-			// entirely between the put and the consumer that got it
+			// "at that moment" / "the first consumer that subscribes later":
+			// the put took effect at one moment t within [p.s, p.e], when no
+			// matching consumer was subscribed.  A matching consumer k whose
+			// Close was not called before the put returned was therefore not
+			// yet subscribed at t, i.e. it subscribed later than t, and was
+			// entitled to the envelope unless the eventual taker subscribed
+			// before it.  So k's Subscribe cannot have returned before the
+			// taker's Subscribe started (the final catch-all subscriber starts
+			// after everybody).  Holds for overlapping intervals as well.
 			taker := int64(never)
 			if len(late) > 0 {
 				taker = obs.sub[late[0]].s
 			}
 			for k := 0; k < nsub; k++ {
-				if matches(mask(k), tag) && obs.sub[k].s > p.e && obs.sub[k].e < taker && !contains(at[id], k) {
-					return h.Failf("conc/cached-skipped-first-subscriber", "envelope %d (tag %d, put [%d,%d]) was cached but consumer %d (mask %06b), whose Subscribe [%d,%d] ran entirely after the put and before the eventual taker (%s), did not get it",
-						id, tag, p.s, p.e, k, mask(k), obs.sub[k].s, obs.sub[k].e, tstr(taker))
+				if matches(mask(k), tag) && p.e < obs.closeS[k] && obs.sub[k].e < taker && !contains(at[id], k) {
+					return h.Failf("conc/cached-skipped-first-subscriber", "envelope %d (tag %d, put [%d,%d]) was kept in the cache (taken by a Subscribe that started at %s) but consumer %d (mask %06b, Subscribe [%d,%d], close at %s), which was subscribed at the moment of the put or subscribed later and before the taker, did not get it",
+						id, tag, p.s, p.e, tstr(taker), k, mask(k), obs.sub[k].s, obs.sub[k].e, tstr(obs.closeS[k]))
 				}
 			}
 		}
@@ -483,6 +528,18 @@ func judgeConc(c ConcCase, obs *concObs, o *h.Outcome) *h.Failure {
 	return nil
 }
 
+func uniq(xs []string) []string {
+	seen := map[string]bool{}
+	var out []string
+	for _, x := range xs {
+		if !seen[x] {
+			seen[x] = true
+			out = append(out, x)
+		}
+	}
+	return out
+}
+
 func contains(xs []int, v int) bool {
 	for _, x := range xs {
 		if x == v {
@@ -499,7 +556,7 @@ func tstr(t int64) string {
 	return fmt.Sprint(t)
 }
 
-const concRule = "layouts of 2-8 producers x 1-1500 (thorough: 3000) puts with per-producer cyclic tag patterns, 0-8 recording consumers (predicate = subset of tags; Subscribe and optional Close at generated positions of the global put count, incl. before the first and after the last put), 0-3 cache predicate handles enabled/released at generated positions, optional switch of the default handler; all actors run simultaneously on their own goroutines (GOMAXPROCS=16), each layout is run 1-3 times; every call is stamped with start/end on a global atomic counter. oracle (per envelope, from intervals only): never at a consumer whose predicate rejects it; at most once per consumer / default handler / final cache content; at every matching consumer whose Subscribe returned before the put started and whose Close was not called before the put returned; exactly one of {consumers, cache, default}; never without destination (unless a matching consumer was being closed); a consumer that subscribed only after the put returned holds it exclusively, a matching cache predicate was possibly enabled, and no other matching consumer subscribed entirely in between; not at the default handler if a matching cache predicate was enabled throughout the put; after the final catch-all subscriber Close reports an empty cache. non-trivial = envelopes of >= 2 producers went through the cache, or a Subscribe overlapped a matching put; distinct by SHA-256 of the canonical case JSON"
+const concRule = "layouts of 2-8 producers x 1-1500 (thorough: 3000) puts with per-producer cyclic tag patterns, 0-8 recording consumers (predicate = subset of tags; Subscribe and optional Close at generated positions of the global put count, incl. before the first and after the last put), 0-3 cache predicate handles enabled/released at generated positions, optional switch of the default handler; all actors run simultaneously on their own goroutines (GOMAXPROCS=16), each layout is run 1-3 times; every call is stamped with start/end on a global atomic counter. oracle (per envelope, from intervals only): never at a consumer whose predicate rejects it; at most once per consumer / default handler / final cache content; at every matching consumer whose Subscribe returned before the put started and whose Close was not called before the put returned; exactly one of {consumers, cache, default}; never without destination (unless a matching consumer was being closed); a consumer that subscribed only after the put returned holds it exclusively and a matching cache predicate was possibly enabled; an envelope that went through the cache is at every matching consumer not closed before the put returned whose Subscribe returned before the eventual taker's Subscribe started (final cache content: before the end); not at the default handler if a matching cache predicate was enabled throughout the put; after the final catch-all subscriber Close reports an empty cache. non-trivial = envelopes of >= 2 producers went through the cache, or a Subscribe overlapped a matching put; distinct by SHA-256 of the canonical case JSON"
 
 func TestConcurrent(t *testing.T) {
 	rec := h.Begin("C18", "conc")
@@ -512,8 +569,15 @@ func TestConcurrent(t *testing.T) {
 	rapid.Check(t, func(rt *rapid.T) {
 		c := drawConc(rt)
 		rec.MarkCurrent(c)
+		if rec.Failed() {
+			concBoost = 8 // shrinking
+		}
 		o := runConc(c)
-		rec.AddExtra("conc_envelopes_put", c.Prods*c.Puts*max(c.Reps, 1))
+		if o.Fail != nil {
+			rt.Logf("detail of the failing run: %s", concDetail)
+		} else {
+			rec.AddExtra("conc_envelopes_put", c.Prods*c.Puts*max(c.Reps, 1))
+		}
 		rec.Report(rt, c, o)
 	})
 }
